@@ -132,6 +132,9 @@ func drawC14(t *rapid.T) *Case {
 	// how the operator spelt the two paths: clean, or with a "." segment / a doubled
 	// separator (same files; fsnotify reports events under the cleaned name)
 	spelling := []string{"clean", "clean", "dot", "slashes"}[rapid.IntRange(0, 3).Draw(t, "spelling")]
+	// 70%: the watcher is built the way the binary does it (-cert-filename / -certkey-filename,
+	// initCertWatcher), otherwise with certwatcher.New on the same names
+	wiring := drawBool(t, "wiring", 70)
 	n := rapid.IntRange(1, 12).Draw(t, "nops")
 	var ops []c14Op
 	drawContent := func() int {
@@ -184,10 +187,10 @@ func drawC14(t *rapid.T) *Case {
 	for _, o := range ops {
 		parts = append(parts, o.String())
 	}
-	c.Summary = fmt.Sprintf("layout=%s paths=%s concurrent_handshakes=%v history: %s", layout, spelling, concurrent, strings.Join(parts, " "))
+	c.Summary = fmt.Sprintf("layout=%s paths=%s through_flags=%v concurrent_handshakes=%v history: %s", layout, spelling, wiring, concurrent, strings.Join(parts, " "))
 	c.DirectKey = c.Summary
 	c.Direct = func(c *Case) []Violation {
-		vs, st := runC14(layout, spelling, ops, concurrent)
+		vs, st := runC14(layout, spelling, wiring, ops, concurrent)
 		c.DirectStats = st
 		return vs
 	}
@@ -252,7 +255,7 @@ func handshakeLeaf(cfg *tls.Config, sni string) ([]byte, error) {
 	return cl.ConnectionState().PeerCertificates[0].Raw, nil
 }
 
-func runC14(layout, spelling string, ops []c14Op, concurrent bool) (vs []Violation, stats map[string]int) {
+func runC14(layout, spelling string, wiring bool, ops []c14Op, concurrent bool) (vs []Violation, stats map[string]int) {
 	c14Init()
 	stats = map[string]int{}
 	bad := func(class, format string, args ...any) {
@@ -295,7 +298,14 @@ func runC14(layout, spelling string, ops []c14Op, concurrent bool) (vs []Violati
 	case "slashes":
 		crtArg, keyArg = dir+"//tls.crt", dir+"//tls.key"
 	}
-	cw, err := certwatcher.New(crtArg, keyArg)
+	// the watcher is built the way the binary builds it (flags -> initCertWatcher), or directly
+	var cw *certwatcher.CertWatcher
+	if wiring {
+		cw, err = fingerproxy.VerifInitCertWatcher(crtArg, keyArg)
+		stats["watcher_built_through_flags_and_initCertWatcher"]++
+	} else {
+		cw, err = certwatcher.New(crtArg, keyArg)
+	}
 	if err != nil {
 		bad("harness", "certwatcher.New: %v", err)
 		return
@@ -664,5 +674,5 @@ func runC14(layout, spelling string, ops []c14Op, concurrent bool) (vs []Violati
 
 func init() {
 	register(&CheckDef{ID: "C14", Level: "exploration", Engine: "C", Draw: drawC14,
-		Rule: "engine C: the real certwatcher + fsnotify against the real kernel in a private temp directory. Seeded histories of 1-12 steps on the two watched paths: in-place truncate+write (valid pair member, garbage, empty), partial in-place write, write-new + rename-over, Kubernetes-style symlinked-directory swap (with removal of the old directory), either file order, mismatched pairs, renewal with the same key, a removal only as the final step; 5 distinct pairs. After every step a sentinel file watched through the same fsnotify watcher gives a barrier (its 'certificate event' log line is written before its own reload) at which the presented pair is snapshotted; every third barrier also performs a real TLS handshake over net.Pipe; optionally a free-running observer checks the safety clause during the steps. Oracle: presented pair matches its key and existed on disk as a complete matching pair; after a step that leaves a valid pair in place it is that pair; otherwise the last good pair. Distinct: distinct histories."})
+		Rule: "engine C: the real certwatcher + fsnotify against the real kernel in a private temp directory; in 70% of the runs the watcher is built from the command-line flags through fingerproxy's initCertWatcher, and handshakes go through its defaultTLSConfig. Seeded histories of 1-12 steps on the two watched paths: in-place truncate+write (valid pair member, garbage, empty), partial in-place write, write-new + rename-over, Kubernetes-style symlinked-directory swap (with removal of the old directory), either file order, mismatched pairs, renewal with the same key, a removal only as the final step; 5 distinct pairs. After every step a sentinel file watched through the same fsnotify watcher gives a barrier (its 'certificate event' log line is written before its own reload) at which the presented pair is snapshotted; every third barrier also performs a real TLS handshake over net.Pipe; optionally a free-running observer checks the safety clause during the steps. Oracle: presented pair matches its key and existed on disk as a complete matching pair; after a step that leaves a valid pair in place it is that pair; otherwise the last good pair. Distinct: distinct histories."})
 }
